@@ -307,7 +307,9 @@ class ContextChain(ChainMap[SrcDst, Context]):
 
     @property
     def defaults(self) -> dict[str, Any]:
-        for ctx in self.values():
+        # The most recently enabled context: it already carries the parameters
+        # it inherited from the contexts that were active when it was enabled.
+        for ctx in self.contexts:
             return ctx.defaults
         return {}
 
